@@ -1169,7 +1169,12 @@ class RZILTransformer(Transformer):
             case "*":
                 result = val_a * val_b
             case "/":
-                result = val_a / val_b
+                if val_b == 0:
+                    raise NotImplementedError("Division of constants by zero.")
+                # C11 6.5.5: the quotient is truncated toward zero.
+                result = abs(val_a) // abs(val_b)
+                if (val_a < 0) != (val_b < 0):
+                    result = -result
             case _:
                 raise NotImplementedError(f"Can not simplify '{operation}' expression.")
         if not a_type.signed:
